@@ -611,6 +611,24 @@ Record evals := mk_evals {
 
 Definition syn_depth : nat := N.to_nat 4000.
 
+(* compileQueryUpdate resolves `_assign`, `_modify` and (for `op=`) the operator's function BY NAME through the scopes,
+   so a user definition of one of these internal names replaces the update machinery: such programs are declined *)
+Definition nm_assign := codes "_assign".
+Definition nm_modify := codes "_modify".
+Definition nm_upd_add := codes "_add".
+Definition nm_upd_sub := codes "_subtract".
+Definition nm_upd_mul := codes "_multiply".
+Definition nm_upd_div := codes "_divide".
+Definition nm_upd_mod := codes "_modulo".
+Definition nm_upd_alt := codes "_alternative".
+Definition user_defines (rho : env) (name : bytes) : bool :=
+  match lookup_fun rho name 2 with Some _ => true | None => false end.
+Definition update_fun_name (o : operator) : bytes :=
+  match o with
+  | OpUpdateAdd => nm_upd_add | OpUpdateSub => nm_upd_sub | OpUpdateMul => nm_upd_mul
+  | OpUpdateDiv => nm_upd_div | OpUpdateMod => nm_upd_mod | _ => nm_upd_alt
+  end.
+
 Definition step_eval_q (E : evals) (rho : env) (q : query) (v : tv) (ps : pst) (k : K) : M unit :=
   match q with
   | Query imports fds tm lq oq rq pats =>
@@ -661,6 +679,7 @@ Definition step_eval_q (E : evals) (rho : env) (q : query) (v : tv) (ps : pst) (
                     lift (fn_setpath (fst v) (VArr path) (fst x)) (fun w => k (plain w) None))
               | None =>
                   (* _assign(p; $x) = reduce path(p) as $q (.; setpath($q; $x)) *)
+                  if user_defines rho nm_assign then skipM "internal-name-redefined" else
                   ev_q E rho r v None (fun x _ =>
                     c <- new_cell (plain (fst v)) ;;
                     ev_path E rho l v (fun path =>
@@ -673,12 +692,15 @@ Definition step_eval_q (E : evals) (rho : env) (q : query) (v : tv) (ps : pst) (
         | OpModify =>
             match ps with
             | Some _ => skipM "update-in-path"
-            | None => ev_modify E rho l (fun y kk => ev_q E rho r y None (fun z _ => kk (fst z))) v k
+            | None =>
+                if user_defines rho nm_modify then skipM "internal-name-redefined" else
+                ev_modify E rho l (fun y kk => ev_q E rho r y None (fun z _ => kk (fst z))) v k
             end
         | OpUpdateAdd | OpUpdateSub | OpUpdateMul | OpUpdateDiv | OpUpdateMod | OpUpdateAlt =>
             match ps, op_binop o with
             | None, Some f =>
                 (* `l op= r`: r is evaluated first, on the input; one update per output of r *)
+                if user_defines rho nm_modify || user_defines rho (update_fun_name o) then skipM "internal-name-redefined" else
                 ev_q E rho r v None (fun x _ =>
                   ev_modify E rho l (fun y kk => lift (f (fst y) (fst x)) kk) v k)
             | _, _ => skipM "update-in-path"
